@@ -46,7 +46,7 @@ func checkRestartOK(cr *crashRun, k int, a *restartResult, rec *hx.Rec) error {
 		if bd.Error != "" {
 			// KF-03a's window without a replay of that interval: start-up succeeds, but the interval's
 			// index record still carries the old length for the rewritten bytes
-			if cr.kf03aPoint(k) && hx.KFOpen("KF-03a") && strings.HasPrefix(cr.Events[k-1].Path, bd.Key+"/") &&
+			if cr.kf03aPoint(k) && hx.KFOpen("KF-03a") && strings.HasPrefix(kf03aFile(cr.Events, k), bd.Key+"/") &&
 				(strings.Contains(bd.Error, "snappy") || strings.Contains(bd.Error, "EOF")) {
 				rec.Exclude("KF-03a")
 				rec.KF("KF-03a", "bucket unreadable after a crash between in-place data rewrite and index update")
